@@ -8,6 +8,11 @@ list of attempts with the body each one could read):
     end, the others only ever fail or answer — whatever state they are in on arrival and however
     that state changes while the request is served — and the failures fit the time budget
     ⇒  the request succeeds;
+  * answered, when backends come back: retries enabled, the backends only ever fail or answer, the
+    failures fit the (slightly stricter) time budget `budgetLate`, and once the attempts of the run
+    have been made some backend that always answers is in rotation (in the state on arrival or
+    the state the changes during those attempts have left it in)  ⇒  the request succeeded — the
+    loop does not give up while a healthy backend is there and the duration is not spent;
   * every attempt receives the complete original body;
   * no backend is in rotation on arrival (so no attempt is made, and nothing changes)
     ⇒  502 without a single attempt.
@@ -63,6 +68,33 @@ def sized (c : Cfg) : Bool :=
 def mustSucceed (c : Cfg) : Bool :=
   retriesEnabled c && (List.range c.hosts.length).any (stableGood c) && okFailOnly c && budget c && sized c
 
+/-- the state the events of the first `m` attempts have given the backends -/
+def overAfter (c : Cfg) : Nat → (Nat → Option HostState)
+  | 0 => fun _ => none
+  | m + 1 => applyEvents c.events m (overAfter c m)
+
+/-- backend i is healthy once `m` attempts have been made: it answers every attempt and is in
+rotation in the state it arrived in or the events of those attempts have given it -/
+def goodAfter (c : Cfg) (m i : Nat) : Bool :=
+  match c.hosts[i]?, hostState c (overAfter c m) i with
+  | some h, some s => alwaysOk h && upS c s
+  | _, _ => false
+
+/-- backends that can fail an attempt -/
+def flakyCount (c : Cfg) : Nat := (c.hosts.filter fun h => !alwaysOk h).length
+
+/-- Timing side condition when backends come and go: all failures the backends can produce before
+they are marked down, each followed by one try_interval sleep, fit into try_duration, and a
+recorded failure outlives the retry window and the last sleep. -/
+def budgetLate (c : Cfg) : Bool :=
+  decide (c.interval ≥ 1) && decide (c.maxFails ≥ 1) &&
+    decide (c.maxFails * flakyCount c * c.interval < c.tryDuration) &&
+    decide (c.failTimeout ≥ c.tryDuration + c.interval)
+
+/-- after `m` attempts a healthy backend is there and the duration cannot be spent -/
+def mustSucceedAfter (c : Cfg) (m : Nat) : Bool :=
+  retriesEnabled c && okFailOnly c && budgetLate c && sized c && (List.range c.hosts.length).any (goodAfter c m)
+
 /-- no backend is in rotation when the request arrives -/
 def neverAvailable (c : Cfg) : Bool := c.hosts.all fun h => !upS c h.state
 
@@ -72,6 +104,8 @@ def bodiesComplete (c : Cfg) (attempts : List Attempt) : Bool :=
 def verdict (c : Cfg) (res : Result) (attempts : List Attempt) : String :=
   if mustSucceed c && res != .success then
     "bad:not-answered:a healthy backend exists and retries are enabled, yet the request failed"
+  else if mustSucceedAfter c attempts.length && res != .success then
+    "bad:not-answered:the request failed although a healthy backend was in rotation after the last attempt and try_duration was not spent"
   else if !bodiesComplete c attempts then
     "bad:body-incomplete:an attempt did not receive the complete original body"
   else if neverAvailable c && (res != .badGateway || !attempts.isEmpty) then
